@@ -11,7 +11,7 @@ from checks.common import *
 META = dict(
     functions=['pmutt.mixture.cov.PiecewiseCovEffect.__init__/_set_intercepts/insert/pop/get_UoRT/get_HoRT/get_GoRT/get_FoRT/'
                'get_SoR/get_CvoR/get_CpoR/to_dict/from_dict'],
-    bounds=dict(quick='k = 1..4 breakpoints (0 = b0 < b1 < ... <= 1 symbolic), slopes symbolic in [-100,100], coverage x in [0,1], '
+    bounds=dict(quick='k = 1..4 breakpoints (0 = b0 < b1 < ... <= 1 symbolic), slopes symbolic reals in [-100,100] (k = 2, 3 also as symbolic integers), coverage x in [0,1], '
                       'T in [50,5000]; one insert (below first interior / between / equal / above) or one pop(i); 2-step histories',
                 thorough='k = 1..5; 3-step histories'),
     outside_claim=['more than 5 breakpoints', 'pop with negative indices other than -1', 'IEEE rounding'],
@@ -43,11 +43,15 @@ def ref_energy(bs, ss, x):
     return e + ss[m] * (x - bs[m])
 
 
-def _state(ctx, k):
+def _state(ctx, k, int_slopes=False):
     bs = [0.0] + [ctx.real('b%d' % j, 0, 1) for j in range(1, k)]
     for j in range(1, k):
         ctx.assume(bs[j - 1] < bs[j])
-    ss = [ctx.real('s%d' % j, -100, 100) for j in range(k)]
+    if int_slopes:
+        # slopes given as Python integers (an integer-typed container): intercepts are still fractional
+        ss = [ctx.int('s%d' % j, -100, 100) for j in range(k)]
+    else:
+        ss = [ctx.real('s%d' % j, -100, 100) for j in range(k)]
     return bs, ss
 
 
@@ -91,9 +95,9 @@ def _check_lists(ctx, obj, bs, ss, tag):
         ctx.true(tag + 'breakpoints ascending [%d]' % j, obj.intervals[j - 1] <= obj.intervals[j])
 
 
-def h_construct(ctx, k):
+def h_construct(ctx, k, int_slopes=False):
     from pmutt.mixture.cov import PiecewiseCovEffect
-    bs, ss = _state(ctx, k)
+    bs, ss = _state(ctx, k, int_slopes)
     obj = PiecewiseCovEffect('a', 'b', list(bs), list(ss))
     _check_lists(ctx, obj, bs, ss, '')
     _check_function(ctx, obj, bs, ss, '')
@@ -220,6 +224,8 @@ def groups(tier):
         for i in list(range(1, k)) + ([-1] if k > 1 else []):
             g.append(dict(name='pop/k%d/i%d' % (k, i), harness=h_pop, params=dict(k=k, i=i)))
         g.append(dict(name='pop0/k%d' % k, harness=h_pop0, params=dict(k=k)))
+    for k in (2, 3):
+        g.append(dict(name='construct/k%d/integer-slopes' % k, harness=h_construct, params=dict(k=k, int_slopes=True)))
     g.append(dict(name='default-T/k2', harness=h_default_T, params=dict(k=2)))
     g.append(dict(name='default-T/k3', harness=h_default_T, params=dict(k=3)))
     hist = [
